@@ -78,6 +78,10 @@ CLAIMED = {
    text="TLC explores the option-vector machine of MC_C15 (one action per front-end option, plus invalid invocations) and judges the implementation model of the crate-specifier parsers (Frontends.tla) in every state; every vector is run through the real cargo-typify binary built from /repo (all output modes for the base vector) and through import_types! expanded by rustc (-Zunpretty=expanded) next to the builder output expanded the same way; TLC validates the recorded events against ContractCli (exit status, files before/after, stdout, default .rs path, `-` to stdout, nothing written on failure) and token equality of the items with the builder's",
    note="bounded: option vectors within 1 (thorough 2) option steps over one schema exercising every option; trusted: TLC, syn, rustc -Zunpretty=expanded, rustfmt, vdrive",
    ref="DESIGN.md 6 C15"),
+ "C04": dict(
+   text="TLC explores the RustUniverse machine (serde-derivable type definitions: structs, tuple/newtype/unit structs, enums under the four tagging modes with every variant kind, rename_all, deny_unknown_fields, default, skip_serializing_if, rename, field types over containers/tuples/arrays/boxes/maps/references); the definitions are compiled with serde+schemars derives into an origin crate that emits their schemas; a second TLC run generates candidate documents from each emitted schema; those the origin type itself reads and round-trips are the sample values; typify ingests each schema by both routes (root document, definitions map), the generated types are compiled and run on the samples, and the origin types re-read what they wrote; TLC validates the exchange trace: every type generated, every sample accepted and returned equal (origin PartialEq), routes agree",
+   note="bounded: 416 type definitions quick (one field / two variants / one attribute), 4646 thorough; trusted: TLC, serde, schemars 0.8.22, rustc, vdrive, Schema.tla (self-checked) for candidate generation only",
+   ref="DESIGN.md 6 C04"),
 }
 NA_REASON = {}
 DEFAULT_NA = "check under construction in this session (DESIGN.md 11); not yet claimed"
